@@ -743,6 +743,8 @@ def getslice(eng, v, lo, hi, st):
     if isinstance(v, Box) and v.ty is None:
         return Box(None, kind=v.kind)
     ty = type_of(v)
+    if isinstance(v, SV) and isinstance(ty, TKey) and (ty.name, '__getslice__') in eng.methods:
+        return eng.methods[(ty.name, '__getslice__')](eng, v, lo, hi)      # slice of an abstract value: given by the contract
     e = to_z3(v)
     n = z3.Length(e) if ty == TStr else (ty.len(e) if isinstance(ty, TSeq) else None)
     if n is None:
@@ -1010,6 +1012,10 @@ def b_range(eng, *args):
         lo, hi = 0, a[0]
     elif len(a) == 2:
         lo, hi = a
+    elif isinstance(a[2], int) and a[2] > 0:
+        # range(lo, hi, step) with a positive literal step: ceil((hi - lo) / step) values lo, lo + step, ...
+        lo_, hi_, st = _int(a[0]), _int(a[1]), a[2]
+        return IterV(z3.If(hi_ > lo_, (hi_ - lo_ + (st - 1)) / st, 0), lambda i: eng.numval(lo_ + st * _int(i)))
     else:
         raise EngineError('range with symbolic step')
     lo_, hi_ = _int(lo), _int(hi)
